@@ -19,7 +19,7 @@ func init() {
 	Registry["C08"] = &Prop{
 		Plan: func(tier string) Plan {
 			return Plan{Level: "exploration", NCases: pick(tier, 200, 30000), Batch: 4, CaseTimeout: 120,
-				Rule: "one case = a PRNG sequence of 6-20 compaction requests (increasing, repeated, decreasing, 0, above current) interleaved with writes on one engine; after each accepted compaction the monitor raises floor=max(floor, effective revision from the response header), reads the stored compaction record, and issues List / ListByStream at revisions around every past floor and Count at latest, on the compacting node and on a second node over the same store (which adopts the first node's read revision as a follower does). " +
+				Rule: "one case = a PRNG sequence of 6-20 compaction requests (increasing, repeated, decreasing, 0, above current) interleaved with writes on one engine (every 8th case over 650-950 additional keys, several 300-kv stream batches); after each accepted compaction the monitor raises floor=max(floor, effective revision from the response header), reads the stored compaction record, and issues List / ListByStream at revisions around every past floor and Count at latest, on the compacting node and on a second node over the same store (which adopts the first node's read revision as a follower does). " +
 					"non-trivial = sequence containing >=1 request naming an older revision than an earlier accepted one and >=1 read refused below the floor; distinct by (engine, request vector)",
 				Assumptions: []string{"only compactions that returned without error raise the monitor's floor"},
 				MinConcl:    pick(tier, 150, 25000)}
@@ -77,6 +77,20 @@ func runC08(c *harness.Case) {
 	}
 	for i := 0; i < 5+r.Intn(10); i++ {
 		write()
+	}
+	// every 8th case holds 650-950 more keys, so that a streamed range spans several stream batches (300 kvs each):
+	// a refusal that comes only after the scan would be preceded by data
+	if c.Index%8 == 5 {
+		nb := 650 + r.Intn(300)
+		for i := 0; i < nb; i++ {
+			op := harness.SeqOp{Kind: "create", Key: fmt.Sprintf("%s/bulk/%04d", harness.Prefix, i), Val: []byte("b")}
+			if _, mis := n.ApplyChecked(m, op); mis != "" {
+				c.Inconclusive("write misbehaved during set-up: " + mis)
+				return
+			}
+		}
+		hist = append(hist, fmt.Sprintf("create %s/bulk/0000 .. %04d (value b)", harness.Prefix, nb-1))
+		c.Stat("cases_with_more_than_two_stream_batches_of_keys", 1)
 	}
 	full := harness.Prefix + "/"
 	fullEnd := string(backend.PrefixEnd([]byte(full)))
